@@ -53,6 +53,13 @@ func richItem(rt *rapid.T, o gen.AVOpts) model.Item {
 	}
 	sub := o
 	sub.Depth = 2
+	// attribute names that look like the placeholders the generator allocates
+	// (an alias may then be bound to its own text, or to another alias's text)
+	for _, hn := range []string{"#n1", "#n2"} {
+		if rapid.IntRange(0, 39).Draw(rt, "has_"+hn) == 17 { // (rapid favours the ends of a range)
+			it[hn] = model.Str(gen.Str(o.ASCII).Draw(rt, "hashNamed"))
+		}
+	}
 	add("s", func() model.AV { return model.Str(gen.Str(o.ASCII).Draw(rt, "s")) })
 	add("s2", func() model.AV { return model.Str(gen.Str(o.ASCII).Draw(rt, "s2")) })
 	add("n", func() model.AV { return model.Num(gen.Numeral(rt, o, "n")) })
@@ -119,16 +126,46 @@ func richItem(rt *rapid.T, o gen.AVOpts) model.Item {
 }
 
 // exprGuards returns the open findings whose trigger the case satisfies.
-func exprGuards(names map[string]string, paths []model.Path, item model.Item, values map[string]model.AV) []string {
+func exprGuards(names map[string]string, paths []model.Path, item model.Item, values map[string]model.AV, condition ...bool) []string {
 	var ids []string
 	add := func(id string) {
 		if open(id) {
 			ids = append(ids, id)
 		}
 	}
-	for _, v := range names {
-		if strings.Contains(v, ".") {
+	for k, v := range names {
+		if !strings.Contains(v, ".") {
+			continue
+		}
+		// F-ALIASDOT: a dotted attribute name behind an alias is looked up
+		// verbatim first and only then split into a path. In a condition the
+		// finding therefore does not show when the item holds the attribute
+		// and every use of the alias is a whole one-element path.
+		benign := len(condition) > 0 && condition[0]
+		if _, ok := item[v]; !ok {
+			benign = false
+		}
+		for _, p := range paths {
+			for _, el := range p.Elems {
+				if !el.IsIndex && el.Name == k && len(p.Elems) != 1 {
+					benign = false
+				}
+			}
+		}
+		if !benign {
 			add("F-ALIASDOT")
+		}
+	}
+	// F-PHCOLLIDE: an attribute literally named like a #name key of the request
+	// (stored in the item, or addressed through another alias)
+	for k := range names {
+		if _, ok := item[k]; ok {
+			add("F-PHCOLLIDE")
+		}
+		for _, v := range names {
+			if v == k {
+				add("F-PHCOLLIDE")
+			}
 		}
 	}
 	env := model.Env{Names: names, Values: values}
@@ -206,7 +243,7 @@ func runC06(c exprCase, info *c06Info) *failure {
 	if perr != nil {
 		return newFail("harness: generated condition does not parse", "%q: %v", c.Expr, perr)
 	}
-	if ids := exprGuards(c.Names, pathsOf(e), c.Item, c.Values); len(ids) > 0 {
+	if ids := exprGuards(c.Names, pathsOf(e), c.Item, c.Values, true); len(ids) > 0 {
 		info.guarded = ids
 		return nil
 	}
